@@ -547,7 +547,52 @@ def rule_Y13(ctx, rule: str = "Y13") -> None:
         ctx.proved(rule, name, mod.loc(loops[0]), f"in-place locals read in the loop: {both or 'none'}, each bound inside it")
 
 
+def rule_Y14(ctx, rule: str = "Y14") -> None:
+    """what the constructor records about the values it is given does not depend on __init__ going through __setattr__: the
+    generated __init__ of a standard dataclass assigns every argument (Message.__setattr__ runs), the one of a pydantic
+    dataclass stores the validated arguments directly.  Whatever __setattr__ records *on the assigned value* (the presence
+    flag of a field-less message) therefore has to be recorded by __post_init__ as well, or equal constructor calls encode
+    differently in the two dataclass modes"""
+    from ..src import M_INIT
+    mod = ctx.repo.mod(M_INIT)
+    sa = mod.func("Message.__setattr__")
+    pi = mod.func("Message.__post_init__")
+    ctx.analysed("Message.__setattr__", "Message.__post_init__")
+    vparam = sa.args.args[2].arg if len(sa.args.args) > 2 else "value"
+
+    def value_flag_stores(fn, exclude=("self",)):
+        out = []
+        for n in ast.walk(fn):
+            if isinstance(n, ast.Assign):
+                for t in n.targets:
+                    if isinstance(t, ast.Attribute) and isinstance(t.value, ast.Name) and t.value.id not in exclude and t.attr.startswith("_"):
+                        out.append((t.value.id, t.attr, n))
+        return out
+
+    on_value = [(b, a, n) for b, a, n in value_flag_stores(sa) if b == vparam]
+    ctx.count(len(on_value) + 1)
+    name = "__post_init__:records-what-__setattr__-records-on-values"
+    if not on_value:
+        ctx.proved(rule, name, mod.loc(sa), "__setattr__ records nothing on the assigned value")
+        return
+    attrs = {a for _, a, _ in on_value}
+    in_pi = {a for _, a, _ in value_flag_stores(pi)}
+    # a helper both call counts too
+    helpers = {ast.unparse(c.func) for c in ast.walk(sa) if isinstance(c, ast.Call)} & {ast.unparse(c.func) for c in ast.walk(pi) if isinstance(c, ast.Call)}
+    shared = any(h.startswith("self._") or h.startswith("_") for h in helpers if "raw_get" not in h and "betterproto" not in h)
+    missing = sorted(attrs - in_pi)
+    if missing and not shared:
+        b, a, n = next(x for x in on_value if x[1] in missing)
+        ctx.refuted(rule, name, ",".join(missing), mod.loc(n), f"Message.__setattr__ records `{ast.unparse(n)}` on the value being assigned, Message.__post_init__ records nothing of the kind for "
+                    "the values the constructor was given: under pydantic_dataclasses (whose __init__ does not assign through __setattr__) a field-less child passed to the constructor "
+                    "is not marked present, M(e=Empty()) encodes to b'' there and to 0a00 with the standard dataclasses", "pydantic_dataclasses: bytes(M(e=Empty())) vs the standard dataclass")
+    else:
+        ctx.proved(rule, name, mod.loc(pi), f"__post_init__ records {sorted(attrs)} on the given values as __setattr__ does")
+
+
 def run(ctx) -> None:
+    ctx.rules_run.append("Y14")
+    rule_Y14(ctx)
     ctx.rules_run.append("Y13")
     rule_Y13(ctx)
     ctx.rules_run.append("Y12")
